@@ -1,1 +1,269 @@
-/-! Property theorems for C03 (stub: none yet). -/
+import TxdbusModel.Proofs.Msg.Main
+import TxdbusModel.Proofs.Msg.WithWire
+import TxdbusModel.Msg.PreFix
+import TxdbusModel.Gen.Message
+/-!
+# C03 - Every constructible message serialises well-formed and parses back intact
+
+Property theorems about the code model of txdbus/message.py (`Msg/Message.lean`: the four
+constructors, `_marshal`, `parseMessage`; `Msg/HeaderCode.lean`: `marshal` / `unmarshal` on the header
+signature) against the specification of the message format (`Msg/SpecMsg.lean`, `Msg/HeaderWire.lean`),
+for the tables extracted from the repository (`Gen/Message.lean`; `tables_ok` re-checks on every run the
+facts about them that the proofs use).
+
+All theorems hold for every constructor call / every run of calls / every foreign message; nothing is
+bounded.  What they are parameterised by, and why:
+
+* `C : BodyCodec β` - what `marshal.marshal(signature, body, oobFDs)` and `marshal.unmarshal(signature,
+  rawBody, lendian, oobFDs)` do.  The message layer treats the body as bytes; the round trip of the body
+  codec (C01) enters `parse_marshal` / `parse_foreign` as the explicit hypothesis `hC`, nothing else is
+  assumed about `C`.
+* `na : Char → Bool` - `str.isdigit` on non-ASCII characters (C18's opaque parameter; no outcome depends on it).
+* `SigNoNul c` - the `signature` argument contains no NUL.  `marshal_signature` does not validate its
+  argument (the source says "XXX validate signature"); a valid DBus signature never contains NUL.
+* `maxLen ≤ 2^27` - the `_maxMsgLen` of the message's class (the theorems cover the lowered limits that
+  tests/test_message.py uses as well as the real one, `Gen.Message.maxMsgLen = 2^27` by `tables_ok`).
+
+Header fields are the 13 basic types (`HVal`): what message.py itself puts into a header, and unknown
+fields of basic variant types in foreign messages.  Container-typed variants in unknown header fields
+are outside the fragment `Msg/HeaderCode.lean` models (see notes/C03.md).
+-/
+namespace Txdbus.Msg
+
+open Main
+
+/-- The facts about the tables of message.py (and the alignment column of `dbus_types`) that the
+theorems below use hold for the tables extracted from the repository under test. -/
+theorem tables_ok : Gen.Message.tables.OK := genTables_ok
+
+/-- **Serialises to a well-formed DBus message.**  A successfully constructed message `m` (any of the
+four classes, any subset of optional arguments, any flags, any body the codec accepted), built when
+the counter stood at `st.nextSerial ≥ 1`, is byte for byte
+
+    fixed (16 bytes) ++ fieldArray ++ pad ++ body
+
+where `fixed` = `'l'`, the type code of its class, the flag bits (`0x1` unless expectReply, `0x2` unless
+autoStart), version 1, the UINT32 body length (= `body.length`), the UINT32 serial (= the fresh counter
+value, non-zero), the UINT32 length of the field array (= `fieldArray.length`); `pad` is fewer than 8
+zero bytes that bring the header to a multiple of 8; `rawHeader` / `rawPadding` / `rawBody` are these
+parts; the field array is the specification encoding of exactly the non-None attributes of the
+class's `_headerAttrs` (plus `unix_fds` when descriptors were collected), each once, with the typing of
+`m.toSpec`; the whole is at most `maxLen` bytes; and the strict decoder of the specification accepts
+the bytes and returns that message (the 2^26 limit on the header array is the one thing `_marshal` does
+not enforce - it is a premise of the last clause). -/
+theorem marshal_wellformed {β : Type} (C : BodyCodec β) (na : Char → Bool) (maxLen : Nat)
+    (hmax : maxLen ≤ Spec.maxMessage) (st st' : St) (c : Call β) (m : Msg β)
+    (hs : 1 ≤ st.nextSerial) (hsig : SigNoNul c)
+    (h : construct Gen.Message.tables C na maxLen st c = (st', .ok m)) :
+    ∃ sm : SpecMsg, m.toSpec Gen.Message.tables = some sm ∧
+      m.raw = Spec.fixedPart sm (Spec.fieldArray sm).length ++ Spec.fieldArray sm ++ Spec.headerPad sm ++ m.rawBody ∧
+      m.rawHeader = Spec.fixedPart sm (Spec.fieldArray sm).length ++ Spec.fieldArray sm ∧
+      m.rawPadding = Spec.headerPad sm ∧
+      (Spec.fixedPart sm (Spec.fieldArray sm).length).length = 16 ∧
+      (m.rawHeader ++ m.rawPadding).length % 8 = 0 ∧
+      m.rawPadding.length < 8 ∧ (∀ b ∈ m.rawPadding, b = 0) ∧
+      Spec.fixedPart sm (Spec.fieldArray sm).length =
+        [108, UInt8.ofNat (Gen.Message.tables.messageType m.cls),
+         UInt8.ofNat (flagsByte m.expectReply m.autoStart), 1]
+          ++ encUInt .little 4 m.rawBody.length ++ encUInt .little 4 m.serial
+          ++ encUInt .little 4 (Spec.fieldArray sm).length ∧
+      Gen.Message.tables.messageType m.cls < 256 ∧ m.rawBody.length < 4294967296 ∧
+      (Spec.fieldArray sm).length < 4294967296 ∧
+      m.serial = st.nextSerial ∧ m.serial ≠ 0 ∧ m.serial < 4294967296 ∧ st'.nextSerial = st.nextSerial + 1 ∧
+      sm.fields.map (·.1) =
+        (liveEntries m.attrs (Gen.Message.tables.entries m.cls (hasFds m))).map (·.2.1) ∧
+      (sm.fields.map (·.1)).Nodup ∧ sm.fields.all Field.wf = true ∧
+      m.raw.length ≤ maxLen ∧
+      ((Spec.fieldArray sm).length ≤ Spec.maxArray → Spec.decodeMsg m.raw = some sm) :=
+  Main.marshal_wellformed Gen.Message.tables tables_ok C na maxLen hmax st st' c m hs hsig h
+
+/-- **Fresh non-zero serials.**  Over any run of constructor calls on the shared counter (failing calls
+interleaved anywhere), the serials of the messages that were constructed are strictly increasing
+(hence pairwise distinct), at least 1, and below 2^32 (a call made when the counter has reached 2^32
+fails in `struct.pack`: no message, no wrapped serial). -/
+theorem serial_fresh {β : Type} (C : BodyCodec β) (na : Char → Bool) (maxLen : Nat)
+    (cs : List (Call β)) (st : St) (hs : 1 ≤ st.nextSerial) :
+    (okSerials (constructAll Gen.Message.tables C na maxLen st cs).1).Pairwise (· < ·) ∧
+    (∀ s ∈ okSerials (constructAll Gen.Message.tables C na maxLen st cs).1,
+        1 ≤ s ∧ st.nextSerial ≤ s ∧ s < 4294967296) :=
+  Main.serial_fresh Gen.Message.tables tables_ok C na maxLen cs st hs
+
+/-- The counter of a fresh process (`DBusMessage._nextSerial` as the class is defined) satisfies the
+premise of `serial_fresh` and `marshal_wellformed`. -/
+theorem serial_init : 1 ≤ (St.init Gen.Message.tables).nextSerial := by decide
+
+/-- **Parsing the bytes recovers the message.**  `parseMessage(m.rawMessage, fdsAfter)` of a constructed
+message succeeds and returns an object of the same class with the same serial, both flags, every one of
+the nine header attributes (equal as Python values: `UInt32(5) == 5`), the same three raw parts, and -
+when there is a non-empty signature - the decoded body, provided the body codec round-trips that body
+(`hC`: the hypothesis that C01 discharges; `fdsAfter` = the descriptor list after marshalling). -/
+theorem parse_marshal {β : Type} (C : BodyCodec β) (na : Char → Bool) (maxLen : Nat)
+    (st st' : St) (c : Call β) (m : Msg β) (hs : 1 ≤ st.nextSerial) (hsig : SigNoNul c)
+    (h : construct Gen.Message.tables C na maxLen st c = (st', .ok m))
+    (fdsAfter : Option (List PyVal)) (decoded : β)
+    (hC : ∀ sg, m.attrs .signature = .str .plain sg → sg ≠ [] →
+        ∃ bytes, C.marshal sg m.body c.oob = .ok (bytes, fdsAfter) ∧ C.unmarshal sg bytes true fdsAfter = .ok decoded) :
+    ∃ m' : Msg β, parseMessage Gen.Message.tables C m.raw fdsAfter = .ok m' ∧
+      m'.cls = m.cls ∧ m'.serial = m.serial ∧ m'.expectReply = m.expectReply ∧ m'.autoStart = m.autoStart ∧
+      (∀ a, m'.attrs a = plain (m.attrs a)) ∧
+      m'.body = (if truthy (m.attrs .signature) then some decoded else none) ∧
+      m'.rawHeader = m.rawHeader ∧ m'.rawPadding = m.rawPadding ∧ m'.rawBody = m.rawBody :=
+  Main.parse_marshal Gen.Message.tables tables_ok C na maxLen st st' c m hs hsig h fdsAfter decoded hC
+
+/-- `parse_marshal` with nothing assumed about the body codec: the message model instantiated with the code
+model of txdbus's own `marshal` / `unmarshal` (`wireCodec`, Wire/Code.lean) and C01's round-trip theorem in the
+place of `hC`.  For a method call with `oobFDs=[]` whose signature is the rendering of types `ts` without empty
+structs and whose body conforms to it in the sense of C01 (`Code.RepFields`, distinct hashable dict keys, values
+within the limits of the wire format), `parseMessage(m.rawMessage, fds collected)` returns the call with the
+normalised body (tuples as lists, wrappers as plain values, ...).  (C01 states its theorem for `oobFDs=[]`; the
+three other constructors call `_marshal` with `oobFDs=None`, for them `parse_marshal` keeps `hC` as its premise.) -/
+theorem parse_marshal_with_C01 (na : Char → Bool) (maxLen : Nat) (st st' : St)
+    (a : CallArgs PyVal) (m : Msg PyVal) (hs : 1 ≤ st.nextSerial)
+    (ts : List Ty) (pv : PyVal) (items : List PyVal) (vs : List Val) (fdl : List PyVal) (bs : Bytes) (fuel : Nat)
+    (hsig : a.signature = some (renderAll ts)) (hne : renderAll ts ≠ []) (hbody : a.body = some pv)
+    (hoob : a.oobFDs = some [])
+    (hts : allWF ts = true) (hitems : Code.topItems pv = .ok items)
+    (hrep : Code.RepFields fdl vs true ts items 0 fdl.length) (hkeys : Code.KeysOKList items)
+    (henc : Spec.encodeAll Spec.alignTable (endianOf true) ts vs 0 = some bs) (hfuel : depthAll vs ≤ fuel)
+    (h : construct Gen.Message.tables (wireCodec fuel) na maxLen st (.methodCall a) = (st', .ok m)) :
+    ∃ m' : Msg PyVal, parseMessage Gen.Message.tables (wireCodec fuel) m.raw (some fdl) = .ok m' ∧
+      m'.cls = m.cls ∧ m'.serial = m.serial ∧ m'.expectReply = m.expectReply ∧ m'.autoStart = m.autoStart ∧
+      (∀ x, m'.attrs x = plain (m.attrs x)) ∧
+      m'.body = some (.list (Code.plainList items)) ∧ m'.rawBody = bs ∧ m.rawBody = bs :=
+  parse_marshal_wire Gen.Message.tables tables_ok na maxLen st st' a m hs ts pv items vs fdl bs fuel hsig hne hbody
+    hoob hts hitems hrep hkeys henc hfuel h
+
+/-- **Parsing what another implementation would send.**  Let `w` be any valid message of the
+specification (either byte order; `Spec.encodeMsg w` are its bytes) whose field list is, in any order,
+the known fields `known` (no attribute addressed twice) together with any number of fields `extra`
+whose codes `_hcode` does not know.  Then `parseMessage` succeeds with the class of `w`'s type code, its
+serial, both flag bits, every attribute = the value of the known field that addresses it (None when
+there is none) - independent of the order of the list and of the unknown fields -, the body bytes, and
+the decoded body when the signature field (of type `g`) is non-empty and the body codec decodes `w.body`
+in `w`'s byte order (`hC`: discharged by C02's decoder theorem). -/
+theorem parse_foreign {β : Type} (C : BodyCodec β) (w : SpecMsg) (hw : w.valid = true)
+    (cls : MsgClass) (hcls : w.mtype = Gen.Message.tables.messageType cls)
+    (known extra : List Field) (hperm : w.fields.Perm (known ++ extra))
+    (hextra : ∀ f ∈ extra, lookupAttr Gen.Message.tables f.1 = none)
+    (hknown : (known.map (fun f => lookupAttr Gen.Message.tables f.1)).Nodup)
+    (hsigty : ∀ hv, fieldFor Gen.Message.tables known .signature = some hv → hv.ty = .g)
+    (fds : Option (List PyVal)) (hfd : ∀ f ∈ w.fields, f.2.ty = .h → fds ≠ none)
+    (decoded : β)
+    (hC : ∀ sg, fieldFor Gen.Message.tables known .signature = some (.text .g sg) → sg ≠ [] →
+        C.unmarshal sg w.body (decide (w.endian = .little)) fds = .ok decoded) :
+    ∃ m' : Msg β, parseMessage Gen.Message.tables C (Spec.encodeMsg w) fds = .ok m' ∧
+      m'.cls = cls ∧ m'.serial = w.serial ∧
+      m'.expectReply = decide (w.flags % 2 = 0) ∧ m'.autoStart = decide (w.flags / 2 % 2 = 0) ∧
+      (∀ a, m'.attrs a = match fieldFor Gen.Message.tables known a with
+                         | some hv => pyOf fds hv
+                         | none => .none) ∧
+      m'.body = (match fieldFor Gen.Message.tables known .signature with
+                 | some (.text _ (_ :: _)) => some decoded
+                 | _ => none) ∧
+      m'.rawBody = w.body ∧ (m'.rawHeader ++ m'.rawPadding ++ m'.rawBody) = Spec.encodeMsg w :=
+  Main.parse_foreign Gen.Message.tables tables_ok C w hw cls hcls known extra hperm hextra hknown hsigty fds hfd
+    decoded hC
+
+/-- **What cannot be constructed.**  If a constructor returns a message then the message is at most
+`maxLen` bytes long (for the classes of message.py: `maxLen = 2^27`), and its path, interface, member,
+destination and error name - each when present - belong to the DBus grammar (the grammar predicates of
+C18); a method call is not on the reserved path; member (method call, signal), interface (signal) and
+error name (error) are present.  Contrapositive: an argument outside the grammar, the reserved path, or
+a body that makes the message longer than the limit, and the constructor raises. -/
+theorem cannot_construct {β : Type} (C : BodyCodec β) (na : Char → Bool) (maxLen : Nat)
+    (st st' : St) (c : Call β) (m : Msg β) (h : construct Gen.Message.tables C na maxLen st c = (st', .ok m)) :
+    m.raw.length ≤ maxLen ∧
+    (∀ s, m.attrs .path = .str .plain s →
+        Valid.GrammarObjectPath s ∧ (m.cls = .methodCall → s ≠ Gen.Message.tables.reservedPath)) ∧
+    (∀ s, m.attrs .interface = .str .plain s → Valid.GrammarInterfaceName s) ∧
+    (∀ s, m.attrs .member = .str .plain s → Valid.GrammarMemberName s) ∧
+    (∀ s, m.attrs .destination = .str .plain s → Valid.GrammarBusName s) ∧
+    (∀ s, m.attrs .errorName = .str .plain s → Valid.GrammarErrorName s) ∧
+    (m.cls = .methodCall ∨ m.cls = .signal → ∃ s, m.attrs .member = .str .plain s) ∧
+    (m.cls = .signal → ∃ s, m.attrs .interface = .str .plain s) ∧
+    (m.cls = .error → ∃ s, m.attrs .errorName = .str .plain s) :=
+  Main.cannot_construct Gen.Message.tables tables_ok C na maxLen st st' c m h
+
+/-- The specification's own round trip: the strict decoder returns every valid message from its
+encoding, in either byte order, for any field order (this is what makes `Spec.decodeMsg` a judge of
+"well-formed" that accepts everything `Spec.encodeMsg` can produce). -/
+theorem spec_decode_encode (m : SpecMsg) (hm : m.valid = true) : Spec.decodeMsg (Spec.encodeMsg m) = some m :=
+  Spec.decodeMsg_encodeMsg m hm
+
+/-! ## The hypotheses are satisfiable; concrete instances -/
+
+/-- A body codec for the examples: bodies are byte strings that travel as they are. -/
+def rawCodec : BodyCodec Bytes where
+  marshal := fun _ body fds => .ok (body.getD [], fds)
+  unmarshal := fun _ raw _ _ => .ok raw
+
+/-- `MethodCallMessage('/a', 'm')` as the first message of a process: the bytes the real code produces
+(`6c01000100000000010000001a000000 01016f00020000002f61000000000000 03017300010000006d00 000000000000`). -/
+example :
+    ((construct Gen.Message.tables rawCodec (fun _ => false) Gen.Message.maxMsgLen (St.init Gen.Message.tables)
+        (.methodCall { path := some "/a".toList, member := some "m".toList })).2.toOption.map Msg.raw)
+      = some [0x6c, 1, 0, 1, 0, 0, 0, 0, 1, 0, 0, 0, 0x1a, 0, 0, 0,
+              1, 1, 0x6f, 0, 2, 0, 0, 0, 0x2f, 0x61, 0, 0, 0, 0, 0, 0,
+              3, 1, 0x73, 0, 1, 0, 0, 0, 0x6d, 0, 0, 0, 0, 0, 0, 0] := by decide +kernel
+
+/-- ... and `parseMessage` of these bytes gives the call back (`parse_marshal` on a concrete instance). -/
+example :
+    ((parseMessage Gen.Message.tables rawCodec
+        [0x6c, 1, 0, 1, 0, 0, 0, 0, 1, 0, 0, 0, 0x1a, 0, 0, 0,
+         1, 1, 0x6f, 0, 2, 0, 0, 0, 0x2f, 0x61, 0, 0, 0, 0, 0, 0,
+         3, 1, 0x73, 0, 1, 0, 0, 0, 0x6d, 0, 0, 0, 0, 0, 0, 0] none).toOption.map
+      fun m => (Gen.Message.messageType m.cls, m.serial, m.expectReply, m.autoStart, m.rawBody))
+      = some (1, 1, true, true, []) := by decide +kernel
+
+/-- A big-endian method return with an unknown field (code 200, a BYTE) before the known ones is a valid
+message of the specification: the premises of `parse_foreign` are satisfiable. -/
+example :
+    (SpecMsg.valid ⟨.big, 2, 1, 7, [(200, .num .y 5), (5, .num .u 3), (6, .text .s ":1.2".toList)], []⟩) = true := by
+  decide +kernel
+
+/-- The invalid names of the statement are refused by the constructors (an instance of `cannot_construct`). -/
+example :
+    (construct Gen.Message.tables rawCodec (fun _ => false) Gen.Message.maxMsgLen (St.init Gen.Message.tables)
+        (.methodCall { path := some "/a".toList, member := some "m".toList, interface := some "a.".toList })).2.toOption.isNone
+      = true := by decide +kernel
+
+/-! ## Witnesses: the code before the repairs violates the property (the replays of F4 and F5) -/
+
+/-- F4 (repaired by 7466ae7): before the repair `parseMessage` ignored the flags byte - a call built with
+`expectReply=False, autoStart=False` (flags byte 3) parsed with both True. -/
+theorem prefix_parse_ignores_flags :
+    ((parseMessagePreFix Gen.Message.tables rawCodec
+        [0x6c, 1, 3, 1, 0, 0, 0, 0, 1, 0, 0, 0, 0x1a, 0, 0, 0,
+         1, 1, 0x6f, 0, 2, 0, 0, 0, 0x2f, 0x61, 0, 0, 0, 0, 0, 0,
+         3, 1, 0x73, 0, 1, 0, 0, 0, 0x6d, 0, 0, 0, 0, 0, 0, 0] none).toOption.map
+      fun m => (m.expectReply, m.autoStart)) = some (true, true)
+    ∧
+    ((parseMessage Gen.Message.tables rawCodec
+        [0x6c, 1, 3, 1, 0, 0, 0, 0, 1, 0, 0, 0, 0x1a, 0, 0, 0,
+         1, 1, 0x6f, 0, 2, 0, 0, 0, 0x2f, 0x61, 0, 0, 0, 0, 0, 0,
+         3, 1, 0x73, 0, 1, 0, 0, 0, 0x6d, 0, 0, 0, 0, 0, 0, 0] none).toOption.map
+      fun m => (m.expectReply, m.autoStart)) = some (false, false) := by decide +kernel
+
+/-- F5 (repaired by efe5b53): before the repair `MethodCallMessage(interface='')` skipped the validator
+(`if interface:`) and was constructed, naming the invalid empty interface; the repaired constructor refuses it. -/
+theorem prefix_empty_interface_constructible :
+    (mkMethodCallPreFix Gen.Message.tables rawCodec (fun _ => false) Gen.Message.maxMsgLen (St.init Gen.Message.tables)
+        { path := some "/a".toList, member := some "m".toList, interface := some [] }).2.toOption.isSome = true
+    ∧
+    (mkMethodCall Gen.Message.tables rawCodec (fun _ => false) Gen.Message.maxMsgLen (St.init Gen.Message.tables)
+        { path := some "/a".toList, member := some "m".toList, interface := some [] }).2.toOption.isNone = true := by
+  decide +kernel
+
+end Txdbus.Msg
+
+#print axioms Txdbus.Msg.tables_ok
+#print axioms Txdbus.Msg.marshal_wellformed
+#print axioms Txdbus.Msg.serial_fresh
+#print axioms Txdbus.Msg.serial_init
+#print axioms Txdbus.Msg.parse_marshal
+#print axioms Txdbus.Msg.parse_marshal_with_C01
+#print axioms Txdbus.Msg.parse_foreign
+#print axioms Txdbus.Msg.cannot_construct
+#print axioms Txdbus.Msg.spec_decode_encode
+#print axioms Txdbus.Msg.prefix_parse_ignores_flags
+#print axioms Txdbus.Msg.prefix_empty_interface_constructible
